@@ -83,6 +83,9 @@ def run(ctx):
         rc, out = vf.run_gotest(ctx, binary, "^%s$" % test, env=env, timeout=900)
         if rc != 0 or "--- PASS" not in out:
             raise vf.Inconclusive("driver %s failed (rc=%s):\n%s" % (test, rc, out[-3000:]))
+        m = re.search(r"VFC03 connpath=(\d+) skipped=(\d+)", out)
+        if m and int(m.group(2)) * 10 > int(m.group(1)):
+            raise vf.Inconclusive("the connection-level stub carried only %s requests (%s skipped)" % (m.group(1), m.group(2)))
     recorded = sorted(os.path.join(ctx.tmp, f) for f in os.listdir(ctx.tmp) if re.match(r"c03_(gen|rand|big|conn)_\d+\.ndjson$", f))
     vecs = {}
     for f in recorded:
